@@ -565,7 +565,7 @@ func c01R3(c *Ctx, r *Report) {
 					a2, p2 := condAtom(if2.Cond)
 					for s2 := 0; s2 < 2; s2++ {
 						if matchGuard(Fact{if2, a2, p2 == (s2 == 0)}, Guard{Op: "eq", A: callsFunc("(Msg).IsEdns0"), B: isNilConst, Holds: true}) {
-							if passed, _ := mustPass(fn, if2.Block().Succs[s2], -1, func(x ssa.Instruction) bool { return x == ifi }); !passed {
+							if passed, _ := mustPass(fn, if2.Block().Succs[s2], -1, func(x ssa.Instruction) bool { return x == ifi }); !passed && !passesOnNilEdges(fn, if2.Block().Succs[s2], ifi) {
 								problems = append(problems, "an OPT-less path reaches a return without the RCODE > 15 test")
 							}
 						}
@@ -1319,4 +1319,42 @@ func rootIdent(e ast.Expr) *ast.Ident {
 			return nil
 		}
 	}
+}
+
+// passesOnNilEdges: every path from start to a return passes the instruction target, when later tests of IsEdns0()'s
+// result against nil are taken on their nil side only (start lies on an edge where the result is known nil: a second
+// test of the same value cannot come out the other way).
+func passesOnNilEdges(fn *ssa.Function, start *ssa.BasicBlock, target ssa.Instruction) bool {
+	seen := map[*ssa.BasicBlock]bool{}
+	ok := true
+	var walk func(b *ssa.BasicBlock)
+	walk = func(b *ssa.BasicBlock) {
+		if seen[b] || !ok {
+			return
+		}
+		seen[b] = true
+		for _, in := range b.Instrs {
+			if in == target {
+				return
+			}
+			if _, isRet := in.(*ssa.Return); isRet {
+				ok = false
+				return
+			}
+		}
+		if ifi, isIf := b.Instrs[len(b.Instrs)-1].(*ssa.If); isIf {
+			atom, pol := condAtom(ifi.Cond)
+			for s := 0; s < 2; s++ {
+				if matchGuard(Fact{ifi, atom, pol == (s == 0)}, Guard{Op: "eq", A: callsFunc("(Msg).IsEdns0"), B: isNilConst, Holds: true}) {
+					walk(b.Succs[s]) // the nil side only
+					return
+				}
+			}
+		}
+		for _, sx := range b.Succs {
+			walk(sx)
+		}
+	}
+	walk(start)
+	return ok
 }
